@@ -261,6 +261,40 @@ func Check(c Case) (v vcase.Verdict) {
 			}
 		}
 	}
+	// .fullname next to sub-name keys the name does not have: nothing to remove, so it is
+	// still the whole name (segments that merely start like "/k" stay).
+	var absent []string
+	for k, wv := range want {
+		if !strings.HasPrefix(k, "/") || wv != "" || k == "/gomaxprocs" {
+			continue
+		}
+		if strings.Contains(name, k+"=") {
+			continue // an empty-valued "/k=" segment exists; C08's subject
+		}
+		absent = append(absent, k)
+	}
+	sort.Strings(absent)
+	if len(absent) > 0 {
+		var pp benchproc.ProjectionParser
+		fn, err := pp.Parse(".fullname", nil)
+		if err != nil {
+			v.Failf("Parse(.fullname): %v", err)
+			return
+		}
+		for _, k := range absent {
+			if _, err := pp.Parse(strconv.Quote(k), nil); err != nil {
+				v.Failf("Parse(%s): %v", strconv.Quote(k), err)
+				return
+			}
+			if strings.Contains(name, k) {
+				v.Label("absent_subname_key_is_prefix_of_a_segment")
+			}
+		}
+		if got := fn.Project(res).Get(fn.Fields()[0]); got != name {
+			v.Failf("name %q: .fullname projected beside the absent sub-name keys %q = %q, reference the whole name", name, absent, got)
+			return
+		}
+	}
 	if name != string(res.Name) {
 		v.Failf("result name changed by extraction")
 	}
@@ -333,7 +367,7 @@ func genName(t *rapid.T) string {
 func Gen(t *rapid.T) Case {
 	name := genName(t)
 	var cfg []Cfg
-	keyPool := []string{"goos", "a", "k", "pkg", "é", ".file", ".label", "note", "gomaxprocs", "size"}
+	keyPool := []string{"goos", "a", "k", "pkg", "é", ".file", ".label", "note", "gomaxprocs", "size", "cpu/model", "a/k"}
 	n := rapid.IntRange(0, 6).Draw(t, "ncfg")
 	for i := 0; i < n; i++ {
 		cfg = append(cfg, Cfg{
@@ -342,7 +376,7 @@ func Gen(t *rapid.T) Case {
 			File: rapid.Bool().Draw(t, "file"),
 		})
 	}
-	keys := rapid.SliceOfN(rapid.SampledFrom([]string{"/k", "/size", "/a", "/é", "/7", "/k2", "goos", "a", "k", "absent", ".file", ".label", "/gomaxprocs", "gomaxprocs", "/absent", "/gomaxprocs2", "/gomaxprocs_limit", "/gomaxproc", "/sizeclass", "/siz", "/kk"}), 0, 6).Draw(t, "keys")
+	keys := rapid.SliceOfN(rapid.SampledFrom([]string{"/k", "/size", "/a", "/é", "/7", "/k2", "goos", "a", "k", "absent", ".file", ".label", "/gomaxprocs", "gomaxprocs", "/absent", "/gomaxprocs2", "/gomaxprocs_limit", "/gomaxproc", "/sizeclass", "/siz", "/kk", "cpu/model", "a/k", "k/"}), 0, 6).Draw(t, "keys")
 	return mkCase(name, cfg, keys)
 }
 
